@@ -1217,6 +1217,11 @@ func newOfficialRoaringIterator(data []byte) (*officialRoaringIterator, error) {
 	if r.haveRuns {
 		// start out pointed at where the offsets would have been.
 		r.currentDataOffset = uint32(offsetOffset)
+		if keys >= noOffsetThreshold {
+			// with this many containers the format does have an offset
+			// header; the data starts behind it.
+			r.currentDataOffset += keys * 4
+		}
 	} else {
 		if offsetOffset+int(r.keys*4) > len(data) {
 			return nil, fmt.Errorf("insufficient data for offsets: want %d bytes, got %d",
@@ -5167,6 +5172,9 @@ func popcountAndSlice(s, m []uint64) uint64 {
 const (
 	serialCookieNoRunContainer = 12346 // only arrays and bitmaps
 	serialCookie               = 12347 // runs, arrays, and bitmaps
+	// noOffsetThreshold: with run containers (serialCookie) the offset header
+	// is only present when there are at least this many containers.
+	noOffsetThreshold = 4
 )
 
 func readOfficialHeader(buf []byte) (size uint32, containerTyper func(index uint, card int) byte, header, pos int, haveRuns bool, err error) {
@@ -5321,6 +5329,12 @@ func readOffsets(b *Bitmap, data []byte, pos int, keyN uint32) error {
 func readWithRuns(b *Bitmap, data []byte, pos int, keyN uint32) error {
 	if len(data) < pos+runCountHeaderSize {
 		return fmt.Errorf("offset incomplete: len=%d", len(data))
+	}
+	if keyN >= noOffsetThreshold {
+		// The official format has an offset header here as well once there
+		// are noOffsetThreshold containers. The containers follow each other
+		// in order, so the offsets are not needed; skip them.
+		pos += int(keyN) * 4
 	}
 	citer, _ := b.Containers.Iterator(0)
 	for i := 0; i < int(keyN); i++ {
